@@ -25,6 +25,22 @@ func runC19(c *Ctx) {
 	r.Doc("G3", "children joined before the first signal (v1) or bound to a channel the parent closes (v2)", 5)
 	r.Doc("G4", "every CFG cycle of every goroutine has an exit edge; child loops leave on the parent's termination", 10)
 	r.Doc("G5", "sending the error never keeps the goroutine alive: err channel capacity >= 1, at most one send", 3)
+	r.Doc("G6", "(= C16 S1/S2, v1) every channel wait of a v1 goroutine watches its stop signals and every loop leaves on stop: rough stop / cancellation at any point ends the goroutine", 20)
+	sub := &Ctx{V1: c.V1, V2: c.V2, Tier: c.Tier, R: NewReport("tmp", c.Tier)}
+	for _, d := range c.V1.Discs() {
+		for _, e := range d.Gos {
+			c16routine(sub, c.V1.Routine(d, e))
+		}
+	}
+	for _, o := range sub.R.Obls {
+		if o.Rule != "S1" && o.Rule != "S2" {
+			continue
+		}
+		if strings.Contains(o.Key, "#call:") {
+			continue // calls into a sub-discipline: bounded-time question of C16 (finding D), not a leak
+		}
+		r.Check(o.OK, "G6", strings.TrimPrefix(strings.TrimPrefix(o.Key, "S1@"), "S2@"), o.Site, o.Detail, o.Detail)
+	}
 	for _, p := range []*Prog{c.V1, c.V2} {
 		c19prog(c, p)
 		errChannelNonBlocking(c, p, "G5")
